@@ -154,3 +154,15 @@ func VerifC14BreakRecord(s *Session, id string) bool {
 	})
 	return ok
 }
+
+// VerifC14HasRecord tells whether the resume database holds a record (bucket) of that id (a read transaction: it is never
+// blocked by a writer and sees the last committed state).
+func VerifC14HasRecord(s *Session, id string) bool {
+	ok := false
+	_ = s.db.View(func(tx *bbolt.Tx) error {
+		tb := tx.Bucket(torrentsBucket)
+		ok = tb != nil && tb.Bucket([]byte(id)) != nil
+		return nil
+	})
+	return ok
+}
